@@ -31,6 +31,11 @@ def acForwarder : Acct := 10   -- a batching contract: one transaction, several 
 def acEmitter : Acct := 11     -- any OTHER contract: it can emit logs shaped like the packet contract's `PacketSent(bytes)`
 def acSwitch : Acct := 12      -- a sender's callback contract that reverts while its switch is on
 
+/-- accounts 13 … 20: module accounts of the app (gov, fee collector, ibc transfer, bonded / not-bonded pool, the xibc packet
+module, aggregate, evm). The bank refuses to credit the NATIVE coin to them ("blocked addresses"); ERC-20 balances are
+contract storage and are not affected. -/
+def blocked (a : Acct) : Bool := decide (13 ≤ a ∧ a ≤ 20)
+
 /-- token amounts, allowances and supplies are `uint256`: checked arithmetic reverts at 2^256 -/
 def U256 : Nat := 2 ^ 256
 
@@ -264,6 +269,8 @@ inductive Cb
   | evmRevert                               -- error; the EVM discarded its own state
   | errorResult (code : Nat) (c : Chain)    -- no error, result code ≠ 0, state returned by the EVM call
   | hookFail (c : Chain)                    -- error reported after the EVM state `c` had been committed
+  | commitFail (c : Chain)                  -- the EVM run succeeded, writing its state back to the stores failed HALF-WAY: `c` is the
+                                            -- partly written state (accounts are written in address order), an error is reported
 
 /-- Transfer part of `endpoint.onRecvPacket`; `none` = non-zero result code without state change.
 Returns the token credited on this chain and the number of its units that one unit of the packet's amount is worth
@@ -293,12 +300,30 @@ def recvTransfer (cfg : Cfg) (e : Evm) (p : Packet) : Option (Evm × Token × Na
           some ({ e with out := upd2 e.out o p.src (e.out o p.src - t.amount),
                          credited := upd2 e.credited p.src p.seq (e.credited p.src p.seq + 1) }, o, 1)
 
+/-- the packet releases escrowed NATIVE coin (a bound token coming home to its origin, where it is token 0) to an
+account the bank blocks -/
+def blockedRelease (p : Packet) : Bool :=
+  match p.transfer with
+  | some t => decide (t.ori = some 0) && blocked t.receiver && decide (0 < t.amount)
+  | none => false
+
+def releaseTo (p : Packet) : Acct :=
+  match p.transfer with
+  | some t => t.receiver
+  | none => 0
+
 /-- `packet.onRecvPacket` as seen through `CallEVMWithData` (EVM call, then hooks on the same context). -/
 def onRecv (cfg : Cfg) (self : ChainId) (c : Chain) (p : Packet) : Cb :=
   match recvTransfer cfg c.evm p with
   | none => .errorResult 2 c
   | some (e, tok, k) =>
     let c1 : Chain := { c with evm := e }
+    -- the native coin released to a module account the bank blocks: the EVM run (transfer part AND call data, unless the
+    -- call data reverts the whole call) succeeds, but the commit of the state fails at that account — after the endpoint
+    -- (a smaller address) has been debited and `outTokens` decremented. `CallPacket` returns an error.
+    if blockedRelease p ∧ p.call ≠ .plain .revert then
+      .commitFail { c with evm := { e with bal := upd2 e.bal 0 (releaseTo p) (c.evm.bal 0 (releaseTo p)) } }
+    else
     match p.call with
     | .none => .ok c1
     | .plain .ok => .ok c1
@@ -350,12 +375,14 @@ def recvHandler (fixed : Bool) (cfg : Cfg) (self : ChainId) (c : Chain) (p : Pac
       | .evmRevert => some (writeAck ctx 1)
       | .errorResult code _ => some (writeAck ctx code)             -- cctx discarded
       | .hookFail _ => some (writeAck ctx 1)                        -- cctx discarded
+      | .commitFail _ => some (writeAck ctx 1)                      -- cctx discarded, with the half-written state in it
     else
       match onRecv cfg self ctx p with                              -- callback on ctx (cctx stays empty; write() is a no-op)
       | .ok ctx' => some (writeAck ctx' 0)
       | .evmRevert => some (writeAck ctx 1)
       | .errorResult code ctx' => some (writeAck ctx' code)
       | .hookFail ctx' => some (writeAck ctx' 1)
+      | .commitFail ctx' => some (writeAck ctx' 1)
 
 /-- Refund part of `endpoint.onAcknowledgementPacket` (error acknowledgement). -/
 def refund (cfg : Cfg) (e : Evm) (p : Packet) : Option Evm :=
@@ -426,7 +453,11 @@ def ackHandler (cfg : Cfg) (self : ChainId) (c : Chain) (p : Packet) (code : Nat
 and for an error code alike. If that is the switch contract and its switch is on (`cbFail`), the call reverts and with it
 the whole message: nothing is consumed, the same acknowledgement can be delivered again later. -/
 def ackMsg (cfg : Cfg) (self : ChainId) (c : Chain) (p : Packet) (code : Nat) (rel : Option Acct) (cbFail : Bool) : Option Chain :=
-  if p.cbSwitch ∧ cbFail then none else ackHandler cfg self c p code rel
+  if p.cbSwitch ∧ cbFail then none
+  -- a relay fee in the native coin whose recipient (the relayer resolved by the registry) is an account the bank blocks:
+  -- `sendPacketFeeToRelayer` runs, the commit of its state fails, the whole message fails
+  else if (c.evm.fee p.dst p.seq).1 = 0 ∧ 0 < (c.evm.fee p.dst p.seq).2 ∧ (rel.map blocked).getD false then none
+  else ackHandler cfg self c p code rel
 
 /-- One entry of a chain's relayer registry (`RegisterRelayers` stores one per relayer address and REPLACES it):
 the relayer's account on this chain and, per counterparty chain, the name ("tag") it goes by there. `rank` is the
@@ -517,6 +548,7 @@ def step (fixed : Bool) (w : World) : Step → World
   | .transfer i t src dst n =>
     let c := w.chains i
     if src = acEndpoint ∨ src = acPacket then w       -- the system contracts move tokens only through the handlers above
+    else if t = 0 ∧ blocked dst then w                -- the bank refuses to credit the native coin to a module account
     else
       match debit c.evm t src n with
       | none => w
